@@ -64,3 +64,68 @@ def hash_distinguishes(n):
     diff = [set_initial_estimates(base, {'POP_CL': 0.0123}), set_additive_error_model(base),
             set_estimation_step(base, 'IMP', idx=0)]
     return all(str(ModelHash(m)) == k0 for m in same) and all(str(ModelHash(m)) != k0 for m in diff)
+
+
+def generic_roundtrip():
+    """Concrete companion (sampling): the generic model code (JSON of Model.to_dict) of a family of models with
+    Expr-bearing components - joint distributions, a compartmental system with lag time / bioavailability / peripheral /
+    transit compartments / nonlinear elimination, piecewise covariate effects, several dependent variables, estimation
+    steps with falsy option values - parses back to an EQUAL model with the same key; the statements, random variables,
+    parameters, execution steps, datainfo, dependent variables and observation transformation are compared one by one."""
+    import os
+    import warnings
+    warnings.simplefilter('ignore')
+    import pharmpy.modeling as pm
+    from pharmpy.model import Model
+    from pharmpy.workflows.hashing import ModelHash
+    base = pm.load_example_model('pheno')
+    variants = {'pheno': base}
+
+    def add(name, f):
+        try:
+            variants[name] = f()
+        except Exception as e:  # noqa  (a variant that cannot be built is not the subject)
+            variants[name] = e
+    add('joint', lambda: pm.create_joint_distribution(base, individual_estimates=None))
+    add('oral_rich', lambda: pm.add_peripheral_compartment(pm.add_bioavailability(pm.add_lag_time(
+        pm.set_first_order_absorption(base)))))
+    add('transits_mm', lambda: pm.set_michaelis_menten_elimination(pm.set_transit_compartments(base, 2)))
+    add('zo_abs', lambda: pm.set_zero_order_absorption(base))
+    add('covariates', lambda: pm.add_covariate_effect(pm.add_covariate_effect(base, 'CL', 'WGT', 'pow'), 'VC', 'APGR', 'cat'))
+    add('iov', lambda: pm.add_iov(base, 'FA1', ['CL']))
+    add('combined_blq', lambda: pm.transform_blq(pm.set_combined_error_model(base), method='m3', lloq=0.1))
+    add('metabolite', lambda: pm.add_metabolite(base))
+    add('steps', lambda: pm.add_estimation_step(pm.set_estimation_step(base, 'IMP', idx=0, auto=False, niter=0, isample=0,
+                                                                    keep_every_nth_iter=0), 'SAEM', niter=10))
+    add('simulation', lambda: pm.set_simulation(base, n=3, seed=0))
+    add('fixed_bounds', lambda: pm.set_upper_bounds(pm.fix_parameters(base, ['POP_VC']), {'POP_CL': 1.0}))
+    add('boxcox', lambda: pm.transform_etas_boxcox(base, ['ETA_CL']))
+    bad = []
+    done = 0
+    for name, m in variants.items():
+        if isinstance(m, Exception):
+            continue
+        g = pm.convert_model(m, 'generic')
+        back = Model.parse_model_from_string(g.code)
+        done += 1
+        parts = dict(statements=back.statements == g.statements, parameters=back.parameters == g.parameters,
+                     random_variables=back.random_variables == g.random_variables,
+                     execution_steps=back.execution_steps == g.execution_steps, datainfo=back.datainfo == g.datainfo,
+                     dependent_variables=dict(back.dependent_variables) == dict(g.dependent_variables),
+                     observation_transformation=dict(back.observation_transformation) == dict(g.observation_transformation),
+                     model=back == g,
+                     # the generic code does not carry the data: the key is compared with the same dataset attached
+                     key=str(ModelHash(back.replace(dataset=g.dataset, datainfo=g.datainfo))) == str(ModelHash(g)),
+                     statement_text=[str(s) for s in back.statements] == [str(s) for s in g.statements])
+        if back.statements.ode_system is not None:
+            a, b = back.statements.ode_system, g.statements.ode_system
+            parts['ode'] = (a == b and [str(e) for e in a.eqs] == [str(e) for e in b.eqs] and
+                            a.compartment_names == b.compartment_names)
+        wrong = [k for k, v in parts.items() if not v]
+        if wrong:
+            bad.append(f'{name}: {wrong}')
+    if done < 8:
+        raise AssertionError(f'only {done} variants could be built')
+    if bad:
+        raise AssertionError('; '.join(bad[:5]))
+    return True
